@@ -350,11 +350,12 @@ ElemAttribute::startElement(StylesheetExecutionContext& executionContext) const
                     }
                     else
                     {
-                        // Check to see if there's already a namespace declaration in scope...
-                        const XalanDOMString* const     prefix =
-                            executionContext.getResultPrefixForNamespace(attrNameSpace);
+                        // Check to see if the prefix is already bound to the namespace...
+                        const XalanDOMString* const     theBoundNamespace =
+                            executionContext.getResultNamespaceForPrefix(nsprefix);
 
-                        if (prefix == 0)
+                        if (theBoundNamespace == 0 ||
+                            equals(*theBoundNamespace, attrNameSpace) == false)
                         {
                             // We need to generate a namespace declaration...
                             const GetCachedString   nsDeclGuard(executionContext);
@@ -655,11 +656,12 @@ ElemAttribute::execute(StylesheetExecutionContext&  executionContext) const
                     }
                     else
                     {
-                        // Check to see if there's already a namespace declaration in scope...
-                        const XalanDOMString* const     prefix =
-                            executionContext.getResultPrefixForNamespace(attrNameSpace);
+                        // Check to see if the prefix is already bound to the namespace...
+                        const XalanDOMString* const     theBoundNamespace =
+                            executionContext.getResultNamespaceForPrefix(nsprefix);
 
-                        if (prefix == 0)
+                        if (theBoundNamespace == 0 ||
+                            equals(*theBoundNamespace, attrNameSpace) == false)
                         {
                             // We need to generate a namespace declaration...
                             const GetCachedString   nsDeclGuard(executionContext);
